@@ -23,13 +23,12 @@ Proof. destruct a, b, c; cbn; try tauto. apply Permutation_trans. Qed.
 
 (* ---------- literals of the source this development relies on ---------- *)
 Lemma orch_facts :
-  par_threshold_cmp = CLt /\ par_threshold_factor = 2 /\ par_empty_returns_nil = true
+  par_threshold_cmp = CLt /\ par_threshold_factor = 2 /\ par_fallback_is_lint_files = true /\ par_empty_returns_nil = true
   /\ worker_catches = "Exception" /\ worker_error_result_empty = true
   /\ extract_catches = "Exception" /\ extract_error_result_empty = true
   /\ check_reraises = ["ValueError"]
-  /\ dir_entry_points_collect_then_lint_files = true
-  /\ cli_dispatch = [("files", "lint_files_parallel", "lint_files"); ("dir", "lint_directory_parallel", "lint_directory")]
-  /\ List.length par_branch_steps = 3 /\ List.length seq_steps = 2.
+  /\ dir_parallel_collects_then_lint_files_parallel = true
+  /\ cli_dispatch = [("files", "lint_files_parallel", "lint_files"); ("dir", "lint_directory_parallel", "lint_directory")].
 Proof. repeat split; reflexivity. Qed.
 
 Lemma effective_workers_explicit n cpu : effective_workers (Some (S n)) cpu = S n.
